@@ -1,4 +1,4 @@
-// GENERATED on every run by vlib/extract.py from /tmp/refcheck-2660-r2-2_diff -- do not edit
+// GENERATED on every run by vlib/extract.py from /repo -- do not edit
 #![allow(unused_imports, unused_variables, unused_mut, dead_code, unused_parens, unused_braces, non_snake_case)]
 #![feature(allocator_api)]
 use vstd::prelude::*;
@@ -301,7 +301,7 @@ pub struct QualifierKey(pub SmallString);
 pub struct Qualifiers {
     pub qualifiers: Vec<(QualifierKey, SmallString)>,
 }
-// ---- unit T.MixedQualifierKey  <= purl/src/qualifiers.rs:554 ----
+// ---- unit T.MixedQualifierKey  <= purl/src/qualifiers.rs:553 ----
 pub enum MixedQualifierKey<S> {
     Lower(S),
     Mixed(S),
@@ -545,7 +545,7 @@ pub proof fn lemma_canon_of_valid(s: Seq<char>)
     lemma_lower_seq_ascii(s);
 }
 
-// ---- unit U-qkey.is_valid_qualifier_name  <= purl/src/qualifiers.rs:514 ----
+// ---- unit U-qkey.is_valid_qualifier_name  <= purl/src/qualifiers.rs:513 ----
 exec const ALLOWED_SPECIAL_CHARS: &'static [char] ensures ALLOWED_SPECIAL_CHARS@ =~= seq!['.', '-', '_'] { &['.', '-', '_'] }
 pub fn is_valid_qualifier_name(k: &str) -> (r: bool)
     ensures r == valid_key(k@)
@@ -564,7 +564,7 @@ pub fn is_valid_qualifier_name(k: &str) -> (r: bool)
         !all_ok0 ==> exists|i: int| 0 <= i < k@.len() && !key_char(#[trigger] k@[i]),
 { if !(c.is_ascii_alphanumeric() || x_slice_contains(ALLOWED_SPECIAL_CHARS, &c)) { all_ok0 = false; break; } } all_ok0 })
 }
-// ---- unit U-qkey.check_qualifier_key  <= purl/src/qualifiers.rs:594 ----
+// ---- unit U-qkey.check_qualifier_key  <= purl/src/qualifiers.rs:593 ----
 pub fn check_qualifier_key<S>(k: S) -> (r: Result<MixedQualifierKey<S>, ParseError>)
 where S: AsRef<str>,
     ensures
@@ -593,7 +593,7 @@ where S: AsRef<str>,
     }
 }
 impl<S: AsRef<str>> MixedQualifierKey<S> {
-// ---- unit U-qkey.into_key  <= purl/src/qualifiers.rs:567 ----
+// ---- unit U-qkey.into_key  <= purl/src/qualifiers.rs:566 ----
 pub fn into_key(self) -> (r: QualifierKey)
 where SmallString: From<S>,
         requires self.wf()
@@ -616,7 +616,7 @@ where SmallString: From<S>,
     }
 }
 impl<S: AsRef<str>> AsRef<str> for MixedQualifierKey<S> {
-// ---- unit U-qkey.as_ref  <= purl/src/qualifiers.rs:586 ----
+// ---- unit U-qkey.as_ref  <= purl/src/qualifiers.rs:585 ----
     open spec fn text(&self) -> Seq<char> {
         match self { MixedQualifierKey::Lower(s) => s.text(), MixedQualifierKey::Mixed(s) => s.text() }
     }
@@ -629,7 +629,7 @@ fn as_ref(&self) -> (r: &str)
     }
 }
 impl QualifierKey {
-// ---- unit U-qcmp.partial_cmp  <= purl/src/qualifiers.rs:335 ----
+// ---- unit U-qcmp.partial_cmp  <= purl/src/qualifiers.rs:334 ----
 pub fn partial_cmp<S: AsRef<str> + ?Sized>(&self, other: &S) -> (r: Option<Ordering>)
         ensures r == Some(lex_cmp(self.0@, lower_seq(other.text())))
 {
@@ -643,7 +643,7 @@ pub fn eq<S: AsRef<str> + ?Sized>(&self, other: &S) -> (r: bool)
 {
         proof { lemma_lex_eq(self.0@, lower_seq(other.text())); }
 
-        matches!(self.partial_cmp(other), Some(Ordering::Equal))
+        self.partial_cmp(other).map(|o: Ordering| -> (b: bool) ensures b == (o is Equal) { o.is_eq() }).unwrap_or_default()
     }
 }
 impl Qualifiers {
@@ -719,19 +719,19 @@ x_binary_search_keys(&self.qualifiers, key)
 
     }
 }
-// ---- unit T.OccupiedEntry  <= purl/src/qualifiers.rs:422 ----
+// ---- unit T.OccupiedEntry  <= purl/src/qualifiers.rs:421 ----
 pub struct OccupiedEntry<'a, K> {
     pub qualifiers: &'a mut Vec<(QualifierKey, SmallString)>,
     pub index: usize,
     pub key: PhantomData<K>,
 }
-// ---- unit T.VacantEntry  <= purl/src/qualifiers.rs:471 ----
+// ---- unit T.VacantEntry  <= purl/src/qualifiers.rs:470 ----
 pub struct VacantEntry<'a, K> {
     pub qualifiers: &'a mut Vec<(QualifierKey, SmallString)>,
     pub index: usize,
     pub key: MixedQualifierKey<K>,
 }
-// ---- unit T.Entry  <= purl/src/qualifiers.rs:375 ----
+// ---- unit T.Entry  <= purl/src/qualifiers.rs:374 ----
 pub enum Entry<'a, K> {
     Occupied(OccupiedEntry<'a, K>),
     Vacant(VacantEntry<'a, K>),
@@ -971,7 +971,7 @@ where K: AsRef<str>,
     }
 }
 impl<'a, K: AsRef<str>> VacantEntry<'a, K> {
-// ---- unit U-qmap.VacantEntry.insert  <= purl/src/qualifiers.rs:479 ----
+// ---- unit U-qmap.VacantEntry.insert  <= purl/src/qualifiers.rs:478 ----
 pub fn insert<V>(self, value: V) -> (r: &'a mut SmallString)
 where SmallString: From<K> + From<V>,
         requires self.wf()
@@ -1002,7 +1002,7 @@ self.qualifiers.insert(self.index, (self.key.into_key(), SmallString::from(value
     }
 }
 impl<'a, K> OccupiedEntry<'a, K> {
-// ---- unit U-qmap.OccupiedEntry.remove_entry  <= purl/src/qualifiers.rs:430 ----
+// ---- unit U-qmap.OccupiedEntry.remove_entry  <= purl/src/qualifiers.rs:429 ----
 pub fn remove_entry(self) -> (r: (SmallString, SmallString))
         requires self.wf()
         ensures wf_seq(final(self.qualifiers)@), final(self.qualifiers)@ == old(self.qualifiers)@.remove(self.index as int),
@@ -1013,14 +1013,14 @@ pub fn remove_entry(self) -> (r: (SmallString, SmallString))
         let (k, v) = self.qualifiers.remove(self.index);
         (k.0, v)
     }
-// ---- unit U-qmap.OccupiedEntry.get  <= purl/src/qualifiers.rs:436 ----
+// ---- unit U-qmap.OccupiedEntry.get  <= purl/src/qualifiers.rs:435 ----
 pub fn get(&self) -> (r: &str)
         requires self.wf()
         ensures r@ == old(self.qualifiers)@[self.index as int].1@
 {
         &self.qualifiers[self.index].1
     }
-// ---- unit U-qmap.OccupiedEntry.get_mut  <= purl/src/qualifiers.rs:441 ----
+// ---- unit U-qmap.OccupiedEntry.get_mut  <= purl/src/qualifiers.rs:440 ----
 pub fn get_mut(&mut self) -> (r: &mut SmallString)
         requires old(self).wf()
         ensures *r == old(self).qualifiers@[old(self).index as int].1, final(self).index == old(self).index,
@@ -1034,7 +1034,7 @@ pub fn get_mut(&mut self) -> (r: &mut SmallString)
 
         &mut self.qualifiers[self.index].1
     }
-// ---- unit U-qmap.OccupiedEntry.into_mut  <= purl/src/qualifiers.rs:448 ----
+// ---- unit U-qmap.OccupiedEntry.into_mut  <= purl/src/qualifiers.rs:447 ----
 pub fn into_mut(self) -> (r: &'a mut SmallString)
         requires self.wf()
         ensures *r == old(self.qualifiers)@[self.index as int].1,
@@ -1046,7 +1046,7 @@ pub fn into_mut(self) -> (r: &'a mut SmallString)
 
         &mut self.qualifiers[self.index].1
     }
-// ---- unit U-qmap.OccupiedEntry.insert  <= purl/src/qualifiers.rs:455 ----
+// ---- unit U-qmap.OccupiedEntry.insert  <= purl/src/qualifiers.rs:454 ----
 pub fn insert<V>(&mut self, value: V) -> (r: SmallString)
 where SmallString: From<V>,
         requires old(self).wf()
@@ -1063,7 +1063,7 @@ where SmallString: From<V>,
 
         v
     }
-// ---- unit U-qmap.OccupiedEntry.remove  <= purl/src/qualifiers.rs:465 ----
+// ---- unit U-qmap.OccupiedEntry.remove  <= purl/src/qualifiers.rs:464 ----
 pub fn remove(self) -> (r: SmallString)
         requires self.wf()
         ensures wf_seq(final(self.qualifiers)@), final(self.qualifiers)@ == old(self.qualifiers)@.remove(self.index as int),
@@ -1161,7 +1161,7 @@ pub fn remove_typed<Q>(&mut self) where Q: KnownQualifierKey,
         self.remove(Q::KEY);
     }
 }
-// ---- unit T.Iter  <= purl/src/qualifiers.rs:490 ----
+// ---- unit T.Iter  <= purl/src/qualifiers.rs:489 ----
 pub struct Iter<'a>(pub slice::Iter<'a, (QualifierKey, SmallString)>);
 // ---- unit spec.Iter  <= (contracts):0 ----
 
@@ -1188,7 +1188,7 @@ pub fn into_iter(&self) -> (r: Iter<'_>)
     }
 }
 impl<'a> Iter<'a> {
-// ---- unit U-qmap.Iter.next  <= purl/src/qualifiers.rs:495 ----
+// ---- unit U-qmap.Iter.next  <= purl/src/qualifiers.rs:494 ----
 pub fn next(&mut self) -> (r: Option<(&'a QualifierKey, &'a str)>)
         ensures
             old(self).rem().len() == 0 ==> r is None,
@@ -1244,7 +1244,7 @@ where Q: KnownQualifierKey, SmallString: TryFrom<Q>,
     }
 }
 impl<'a, K: AsRef<str>> Entry<'a, K> {
-// ---- unit U-qmap.Entry.or_insert  <= purl/src/qualifiers.rs:384 ----
+// ---- unit U-qmap.Entry.or_insert  <= purl/src/qualifiers.rs:383 ----
 pub fn or_insert<V>(self, default: V) -> (r: &'a mut SmallString)
 where SmallString: From<K> + From<V>,
         requires match self { Entry::Occupied(o) => o.wf(), Entry::Vacant(v) => v.wf() }
@@ -1270,7 +1270,7 @@ where SmallString: From<K> + From<V>,
             Entry::Vacant(v) => v.insert(default),
         }
     }
-// ---- unit U-qmap.Entry.or_insert_with  <= purl/src/qualifiers.rs:397 ----
+// ---- unit U-qmap.Entry.or_insert_with  <= purl/src/qualifiers.rs:396 ----
 pub fn or_insert_with<F, V>(self, default: F) -> (r: &'a mut SmallString)
 where F: FnOnce() -> V, SmallString: From<K> + From<V>,
         requires match self { Entry::Occupied(o) => o.wf(), Entry::Vacant(v) => v.wf() }, default.requires(())
@@ -1297,7 +1297,7 @@ where F: FnOnce() -> V, SmallString: From<K> + From<V>,
             Entry::Vacant(v) => v.insert(default()),
         }
     }
-// ---- unit U-qmap.Entry.and_modify  <= purl/src/qualifiers.rs:409 ----
+// ---- unit U-qmap.Entry.and_modify  <= purl/src/qualifiers.rs:408 ----
 pub fn and_modify<F>(self, f: F) -> (r: Self)
 where F: FnOnce(&mut SmallString),
         requires match self { Entry::Occupied(o) => o.wf(), Entry::Vacant(v) => v.wf() },
@@ -1323,7 +1323,7 @@ where F: FnOnce(&mut SmallString),
     }
 }
 impl Qualifiers {
-// ---- unit U-qmap.index  <= purl/src/qualifiers.rs:615 ----
+// ---- unit U-qmap.index  <= purl/src/qualifiers.rs:614 ----
 pub fn index<K: AsRef<str>>(&self, index: K) -> (r: &SmallString)
         requires self.wf(), valid_key(index.text()) && has_key(self.qualifiers@, lower_ascii_seq(index.text()))
         ensures has_pair(self.qualifiers@, lower_ascii_seq(index.text()), r@)
@@ -1336,7 +1336,7 @@ pub fn index<K: AsRef<str>>(&self, index: K) -> (r: &SmallString)
         };
         value
     }
-// ---- unit U-qmap.index_mut  <= purl/src/qualifiers.rs:628 ----
+// ---- unit U-qmap.index_mut  <= purl/src/qualifiers.rs:627 ----
 pub fn index_mut<K: AsRef<str>>(&mut self, index: K) -> (r: &mut SmallString)
         requires old(self).wf(), valid_key(index.text()) && has_key(old(self).qualifiers@, lower_ascii_seq(index.text()))
         ensures ({
@@ -1399,7 +1399,7 @@ pub fn with_capacity(capacity: usize) -> (r: Self)
     }
 }
 impl QualifierKey {
-// ---- unit U-qkey.as_str  <= purl/src/qualifiers.rs:369 ----
+// ---- unit U-qkey.as_str  <= purl/src/qualifiers.rs:368 ----
 pub fn as_str(&self) -> (r: &str)
         ensures r@ == self.0@
 {
@@ -1407,7 +1407,7 @@ pub fn as_str(&self) -> (r: &str)
     }
 }
 impl<'a> Iter<'a> {
-// ---- unit U-qmap.Iter.next_back  <= purl/src/qualifiers.rs:508 ----
+// ---- unit U-qmap.Iter.next_back  <= purl/src/qualifiers.rs:507 ----
 pub fn next_back(&mut self) -> (r: Option<(&'a QualifierKey, &'a str)>)
         ensures
             old(self).rem().len() == 0 ==> r is None,
@@ -1418,7 +1418,7 @@ pub fn next_back(&mut self) -> (r: Option<(&'a QualifierKey, &'a str)>)
         let (k, v) = self.0.next_back()?;
         Some((k, v.as_str()))
     }
-// ---- unit U-qmap.Iter.size_hint  <= purl/src/qualifiers.rs:500 ----
+// ---- unit U-qmap.Iter.size_hint  <= purl/src/qualifiers.rs:499 ----
 pub fn size_hint(&self) -> (r: (usize, Option<usize>))
         ensures r.0 == self.rem().len(), r.1 == Some(r.0)
 {
